@@ -66,7 +66,13 @@ let check_tokens (cfg : econfig) (ops : eop list) (tr : tok list) : unit =
     let viol t = function
       | "C02" -> not (mon_C02 g t) | "C03" -> not (mon_C03 g t) | "C04" -> not (mon_C04 g t) | "C08" -> not (mon_C08 g t)
       | "C09" -> not (mon_C09 g t) | "C12" -> not (mon_C12 g t) | "C15" -> not (mon_C15 g t) | "C16" -> not (mon_C16 g t) | _ -> false in
-    let on_tok t p = on p && viol t p in
+    (* mon_C04 / the fresh-view clause of mon_C16 are theorems of histories WITHOUT stale reads (hist_ok): a lagging replica that
+       makes an old event look current hands the function a superseded version, which no handler can detect (DESIGN C04 scope
+       note); in an operation with a stale-read fault those two clauses are out of their domain *)
+    let stale_op = (match op with
+      | OStep (_, _, pl) | OTrigger (_, _, _, pl) | OCallback (_, _, pl) | OCtl (_, _, _, pl) -> List.exists (fun (_, f) -> f = FStale) pl
+      | _ -> false) in
+    let on_tok t p = on p && viol t p && not (stale_op && (match t with TUser _ -> p = "C04" || p = "C16" | _ -> false)) in
     List.iter (fun t ->
       (match t with
       | TStore (prev, r, a) ->
@@ -334,6 +340,24 @@ let check_tokens (cfg : econfig) (ops : eop list) (tr : tok list) : unit =
               bad (if on "C07" then "C07" else "C11") "an adapter call failed with an error, yet the process did not wait the error back-off (%d) before asking for its role again" (zi cfg.ec_backoff)
           | None -> ())
        | _ -> ());
+    (* C11: every store / stream / timeout-store call of a background process is made under the context its role scheduler
+       handed out (the harness marks a call that carried any other context with API=-2) *)
+    (if on "C11" || on "C12" then
+       match unit_of_op with
+       | Some _ when List.exists (function TApi z -> zi z = -2 | _ -> false) seg ->
+         bad (if on "C11" then "C11" else prop) "a background process made an adapter call that was not under the context handed out by its role scheduler"
+       | _ -> ());
+    (* C15: a failing delete function leaves the run RequestedDataDeleted: no write, no Ack *)
+    (if on "C15" then begin
+       let failed_delete = ref false in
+       List.iter (function
+         | TUser (UFDelete, _, _, _, UErr _) -> failed_delete := true
+         | TUser (UFDelete, _, _, _, _) -> failed_delete := false
+         | TStore (_, r, a) when !failed_delete && r.r_state = RSDataDeleted && eff a ->
+           bad "C15" "run %d was rewritten as DataDeleted although its delete function returned an error" (ni r.r_run)
+         | TAck (_, a) when !failed_delete && eff a -> bad "C15" "deletion request acknowledged although the delete function returned an error"
+         | _ -> ()) seg
+     end);
     (* C11: a background process never terminates while the workflow is running *)
     (if on "C11" || on "C07" || on "C01" then
        match unit_of_op with
@@ -421,8 +445,25 @@ let check_tokens (cfg : econfig) (ops : eop list) (tr : tok list) : unit =
     && not (List.exists (fun (_, _, _, _, live) -> !live) !timers) in
 
   (* ---------------- C01: prefix of the failure-free history; equal to it at quiescence ---------------- *)
+  (* ---------------- C08 (resume continues) / C01 (not stranded), in token form: at quiescence every run that is Initiated or
+     Running at a status with a step has had its step function invoked on its current version ---------------- *)
+  if (on "C08" || on "C01") && quiescent then begin
+    let latest = Hashtbl.create 8 and invoked = Hashtbl.create 16 in
+    List.iter (List.iter (function
+      | TStore (_, r, a) when eff a -> Hashtbl.replace latest r.r_run r
+      | TUser (UFStep _, view, _, _, _) -> Hashtbl.replace invoked (view.r_run, zi view.r_ver) ()
+      | _ -> ())) segs;
+    Hashtbl.iter (fun run (r : record) ->
+      if (r.r_state = RSInitiated || r.r_state = RSRunning) && find_step cfg r.r_status <> None
+         && not (Hashtbl.mem invoked (run, zi r.r_ver)) then
+        bad (if on "C08" then "C08" else "C01")
+          "run %d is %s at status %d (version %d) and the system is quiescent, but its step was never invoked on that version (the change was left unprocessed)"
+          (ni run) (if r.r_state = RSRunning then "Running" else "Initiated") (zi r.r_status) (zi r.r_ver)) latest
+  end;
   if on "C01" then begin
-    (* the failure-free execution: the same operations without faults, crashes, lease revocations, rewinds, duplicates *)
+    let tag = "C01" in
+    (* (C08: a resumed run continues from the same status, so it too ends where the failure-free execution ends)
+       the failure-free execution: the same operations without faults, crashes, lease revocations, rewinds, duplicates *)
     let ideal_ops = List.filter_map (fun o -> match o with
       | OTrigger (f, st, sd, _) -> Some (OTrigger (f, st, sd, []))
       | OCallback (f, st, _) -> Some (OCallback (f, st, []))
@@ -454,9 +495,9 @@ let check_tokens (cfg : econfig) (ops : eop list) (tr : tok list) : unit =
       | Some (_, _, irun) ->
         let mine = seq_of !writes run and ideal = seq_of wi.w_hist irun in
         if not (is_prefix mine ideal) then
-          bad "C01" "run %d (foreign ID %d): persisted history is not a prefix of the failure-free history (a step's effect was lost, repeated or reordered)" (ni run) (ni fid);
+          bad tag "run %d (foreign ID %d): persisted history is not a prefix of the failure-free history (a step's effect was lost, repeated or reordered)" (ni run) (ni fid);
         if quiescent && ideal_rest && List.length mine < List.length ideal then
-          bad "C01" "run %d (foreign ID %d): the system is quiescent but the run stopped %d step(s) short of the failure-free execution (stranded)" (ni run) (ni fid) (List.length ideal - List.length mine)
+          bad tag "run %d (foreign ID %d): the system is quiescent but the run stopped %d step(s) short of the failure-free execution (stranded)" (ni run) (ni fid) (List.length ideal - List.length mine)
     ) my_runs
   end;
   (* ---------------- C20: scheduled runs are never early, at most one per tick, carry the initial value ---------------- *)
